@@ -2753,3 +2753,143 @@ Proof.
   - apply existsb_exists. exists (nd e'). split; auto. apply N.eqb_eq. exact Hid.
   - unfold fresh_b. rewrite F2. unfold rl_is. rewrite F3. simpl. rewrite !andb_true_r. apply existsb_exists. exists (nd e'). split; auto. apply node_eqb_eq; auto.
 Qed.
+
+(* ================================================================ 19. doRevalidate: credit is lost only when the PING failed *)
+
+Definition xop_wf (o : xop) : Prop := match o with Plain o => op_wf o | RevalPing _ _ _ _ _ => True end.
+
+Lemma xresolve_wf x o : xop_wf o -> op_wf (xresolve x o).
+Proof.
+  destruct o; simpl; auto. intros _. destruct (start_seq (started x) id); simpl; auto.
+Qed.
+
+Theorem xstep_inv x o : Inv (core x) -> xop_wf o -> exists x', xstep x o = Some x' /\ Inv (core x').
+Proof.
+  intros HI Hw. unfold xstep. destruct (step_inv (core x) (xresolve x o) HI (xresolve_wf x o Hw)) as (t' & -> & HI').
+  eexists. split; [reflexivity|]. exact HI'.
+Qed.
+
+Theorem xsteps_inv os : forall x, Inv (core x) -> Forall xop_wf os -> exists x', xsteps x os = Some x' /\ Inv (core x').
+Proof.
+  induction os as [|o os IH]; intros x HI Hw; simpl; [eauto|].
+  inversion Hw; subst. destruct (xstep_inv x o HI H1) as (x1 & -> & I1). apply IH; auto.
+Qed.
+
+(* what doRevalidate reports *)
+Lemma reval_outcome_spec s0 ok sq enr :
+  fst (reval_outcome s0 ok sq enr) = ok /\
+  (forall r, snd (reval_outcome s0 ok sq enr) = Some r -> s0 < sq /\ enr = Some r).
+Proof.
+  unfold reval_outcome. simpl. split; auto. intros r. destruct (s0 <? sq) eqn:E; [|discriminate].
+  apply N.ltb_lt in E. auto.
+Qed.
+
+Lemma xresolve_ping x id ok sq enr p : exists nr, xresolve x (RevalPing id ok sq enr p) = RevalResp id ok nr p.
+Proof.
+  simpl. destruct (start_seq (started x) id); [|eauto]. unfold reval_outcome. eauto.
+Qed.
+
+Lemma bump_checks g b nr inb g' b' fd ec :
+  NoDup (map eid (ents b)) -> bump_in_bucket g b nr inb = Some (g', b', fd, ec) ->
+  brel (fun a c => checks c = checks a) (ents b) (ents b').
+Proof.
+  intros ND H. apply bump_shape in H. destruct H as (_ & [[-> _]|(i & n & n' & Hn & -> & BU)]).
+  - apply brel_same; auto.
+  - apply (brel_set_at _ _ i n n'); auto; apply BU.
+Qed.
+
+(* an answered liveness check never lowers the credit of any entry of the bucket *)
+Lemma resp_checks id nr pick g b g' b' :
+  BUniq b -> handle_response_b id true nr pick g b = Some (g', b') ->
+  brel (fun e e' => checks e <= checks e') (ents b) (ents b').
+Proof.
+  intros HU. pose proof (BUniq_ents b HU) as ND. unfold handle_response_b.
+  destruct (find_ent (fun e => eid e =? id) (ents b)) as [[i n]|] eqn:F; [|discriminate].
+  destruct (find_ent_some _ _ _ _ F) as (Hn & Hid & _).
+  destruct (rl n) eqn:Rl; [|intros X; inversion X; subst; apply brel_same; auto; intros; lia].
+  simpl negb. cbv iota.
+  set (n1 := set_live (set_checks n (checks n + 1)) true).
+  assert (S1 : forall e, In e (ents b) -> exists e1, In e1 (set_at i n1 (ents b)) /\ eid e1 = eid e /\ checks e <= checks e1).
+  { intros e He. destruct (set_at_split (ents b) i n n1 Hn) as (l1 & l2 & E1 & E2 & _). rewrite E2. rewrite E1 in He.
+    apply in_mid_cases in He. destruct He as [->|He]; [exists n1|exists e]; rewrite in_mid_cases; simpl; repeat split; auto; lia. }
+  assert (ND1 : NoDup (map eid (set_at i n1 (ents b)))) by (erewrite map_eid_set_at; eauto).
+  destruct (match nr with None => _ | Some r => _ end) as [[[g2 b2] ec]|] eqn:BP; [|discriminate].
+  assert (B2 : brel (fun a c => checks c = checks a) (set_at i n1 (ents b)) (ents b2)).
+  { destruct nr as [r0|].
+    - destruct (bump_in_bucket g (set_ents b (set_at i n1 (ents b))) r0 false) as [[[[g3 b3] fd] ec3]|] eqn:B3; [|discriminate].
+      inversion BP; subst. apply (bump_checks g (set_ents b (set_at i n1 (ents b))) r0 false g2 b2 fd ec ND1 B3).
+    - inversion BP; subst. sb. apply brel_same; auto. }
+  destruct ec.
+  - intros X; inversion X; subst. intros e e' He He' E. destruct (S1 e He) as (e1 & H1 & H2 & H3).
+    rewrite (B2 e1 e' H1 He') by congruence. auto.
+  - destruct (nth_error (ents b2) i) as [n2|] eqn:Hn2; [|discriminate].
+    destruct (move_to_list g2 Slow n2) as [[g3 n3]|] eqn:MV; [|discriminate]. apply move_to_list_shape in MV. subst n3.
+    intros X; inversion X; subst. sb. intros e e' He He' E. destruct (S1 e He) as (e1 & H1 & H2 & H3).
+    assert (exists e2, In e2 (ents b2) /\ eid e2 = eid e' /\ checks e' = checks e2) as (e2 & J1 & J2 & J3).
+    { apply in_set_at in He'. destruct He' as [->|He']; [exists n2; split; [eapply nth_error_In; eauto|auto]|exists e'; auto]. }
+    rewrite J3. rewrite (B2 e1 e2 H1 J1) by congruence. auto.
+Qed.
+
+(* composed with handleResponse: after the real doRevalidate ran against a node that ANSWERED the ping (whatever
+   happened to the ENR request), no entry left the table and no entry lost credit *)
+Theorem answered_keeps_credit t id nr pick t' e :
+  Inv t -> step t (RevalResp id true nr pick) = Some t' -> In e (all_ents t) ->
+  exists e', In e' (all_ents t') /\ eid e' = eid e /\ checks e <= checks e'.
+Proof.
+  intros HI ST He.
+  assert (HI' : Inv t') by (destruct (step_inv t (RevalResp id true nr pick) HI I) as (t'' & E & H); rewrite ST in E; inversion E; subst; auto).
+  (* the entry stays *)
+  assert (Hin : In (eid e) (entry_ids t)) by (unfold entry_ids; apply in_map; auto).
+  destruct (entry_leaves_only_if t _ t' (eid e) HI ST Hin) as [K|K]; [|simpl in K; discriminate].
+  unfold entry_ids in K. apply in_map_iff in K. destruct K as (e' & Hid' & He'). exists e'. split; auto. split; auto.
+  (* its credit does not go down *)
+  assert (TR : trel (fun a c => checks a <= checks c) t t').
+  { simpl in ST. unfold handle_response in ST.
+    assert (TRIV : bks t' = bks t -> trel (fun a c => checks a <= checks c) t t') by (intros Hb; apply trel_same_bks; auto; intros; lia).
+    destruct (find (fun a => fst a =? id) (active (gl t))) as [[id' att]|]; [|inversion ST; subst; auto].
+    destruct att; simpl negb in ST; cbv iota in ST; [|inversion ST; subst; auto].
+    pose proof ST as ST2. apply with_bucket_shape in ST2. destruct ST2 as (b & g' & b' & Hn & RS & Et'). simpl in Hn, RS.
+    set (t1 := set_gl t (set_active (gl t) (filter (fun a => negb (fst a =? id)) (active (gl t))))) in *.
+    assert (I1 : Inv t1).
+    { destruct HI as (HL & HS & HB & G1 & G2 & G3). unfold Inv, t1. simpl.
+      split; [exact HL|]. split; [exact HS|]. split; [exact HB|]. split; [exact G1|]. split.
+      - destruct G2 as [A B]. split; intros l'; [specialize (A l')|specialize (B l')]; destruct l'; auto.
+      - intros y Hy. simpl in Hy. apply filter_In in Hy. apply G3. tauto. }
+    assert (TR1 : trel (fun a c => checks a <= checks c) t1 t').
+    { rewrite Et'. eapply trel_bucket; eauto; [rewrite <- Et'; auto| |intros; lia].
+      eapply resp_checks; eauto. destruct HI as (_ & _ & HB & _). destruct (HB _ _ Hn) as (_ & HU & _). auto. }
+    exact TR1. }
+  apply TR; auto.
+Qed.
+
+Theorem answered_ping_keeps_credit x id sq enr pick x' e :
+  Inv (core x) -> xstep x (RevalPing id true sq enr pick) = Some x' -> In e (all_ents (core x)) ->
+  exists e', In e' (all_ents (core x')) /\ eid e' = eid e /\ checks e <= checks e'.
+Proof.
+  intros HI Hs He. unfold xstep in Hs. destruct (xresolve_ping x id true sq enr pick) as (nr & ER). rewrite ER in Hs. clear ER.
+  destruct (step (core x) (RevalResp id true nr pick)) as [t'|] eqn:ST; [|discriminate]. inversion Hs; subst x'. simpl.
+  eapply answered_keeps_credit; eauto.
+Qed.
+
+Theorem pol_credit_holds t o t' : Inv t -> step t o = Some t' -> pol_credit_b t o t' = true.
+Proof.
+  intros HI Hs. unfold pol_credit_b. destruct o; auto. destruct responded; auto.
+  apply forallb_forall. intros e He. destruct (answered_keeps_credit t id newrec pick t' e HI Hs He) as (e' & He' & Hid & Hc).
+  destruct (step_inv t (RevalResp id true newrec pick) HI I) as (t'' & E & HI'). rewrite Hs in E. inversion E; subst t''.
+  apply all_ents_in in He'. destruct He' as (j & b & Hj & Hb).
+  rewrite <- Hid. rewrite (find_entry_unique t' j b e' HI' Hj Hb). apply N.leb_le. exact Hc.
+Qed.
+
+Corollary credit_lost_only_if_ping_failed x id ok sq enr pick x' e :
+  Inv (core x) -> xstep x (RevalPing id ok sq enr pick) = Some x' -> In e (all_ents (core x)) ->
+  (~ In (eid e) (entry_ids (core x')) \/ exists e', In e' (all_ents (core x')) /\ eid e' = eid e /\ checks e' < checks e) ->
+  ok = false.
+Proof.
+  intros HI Hs He Hbad. destruct ok; auto. exfalso.
+  assert (HI' : Inv (core x')) by (destruct (xstep_inv x (RevalPing id true sq enr pick) HI I) as (x'' & E & H); rewrite Hs in E; inversion E; subst; auto).
+  destruct (answered_ping_keeps_credit x id sq enr pick x' e HI Hs He) as (e' & He' & Hid & Hc).
+  destruct Hbad as [H|(e2 & He2 & Hid2 & Hc2)].
+  - apply H. unfold entry_ids. rewrite <- Hid. apply in_map; auto.
+  - pose proof (Inv_unique _ HI') as ND. unfold all_ids in ND.
+    assert (e2 = e') by (eapply (nodup_ids_inj (all_nodes (core x'))); eauto using all_ents_sub; congruence). subst. lia.
+Qed.
